@@ -6,6 +6,7 @@ package eng
 // with harness-written glue, and the batch binary executed (runtime: genrt/rt.go).
 
 import (
+	"go/token"
 	"bytes"
 	"context"
 	_ "embed"
@@ -91,6 +92,9 @@ func expectedPkgName(iface string) string {
 	}
 	return b.String()
 }
+
+// reservedPkg: a package clause with this name cannot be compiled as an importable package (Go keyword, or "main").
+func reservedPkg(n string) bool { return token.IsKeyword(n) || n == "main" }
 
 // goType prints the untagged Go type an API user writes for an IDL type (independent of the generator).
 func goType(t *Ty) string {
@@ -291,7 +295,7 @@ func (gb *genBatch) generate() {
 			p.ok = false
 			return
 		}
-		if want := expectedPkgName(name); name != "" && p.pkgName != want {
+		if want := expectedPkgName(name); name != "" && p.pkgName != want && !(reservedPkg(want) && strings.HasPrefix(p.pkgName, want) && !reservedPkg(p.pkgName)) {
 			gb.viol(p, "package-name", "package name %q is not derived from the interface name %q (expected %q)", p.pkgName, name, want)
 		}
 		if filepath.Base(files[0]) != p.pkgName+".go" {
@@ -393,6 +397,10 @@ func (gb *genBatch) build() (string, bool) {
 		}
 		// package level diagnostics ("package verifgen/p0007: build constraints exclude all Go files in ...")
 		for _, m := range regexp.MustCompile(`(?m)^package verifgen/(p\d+)[^:]*: (.*)$`).FindAllStringSubmatch(out, -1) {
+			byDir[m[1]] = append(byDir[m[1]], m[1]+"/package: "+m[2])
+		}
+		// `import "verifgen/p0036" is a program, not an importable package` (the emitted file says "package main")
+		for _, m := range regexp.MustCompile(`(?m)import "verifgen/(p\d+)" (is a program, not an importable package)`).FindAllStringSubmatch(out, -1) {
 			byDir[m[1]] = append(byDir[m[1]], m[1]+"/package: "+m[2])
 		}
 		if len(byDir) == 0 {
@@ -605,6 +613,10 @@ func c07Sentinels() []*genCase {
 	add("interface named json.RawMessage without any object type", &Desc{Name: "json.RawMessage", Mems: []Mem{{Kind: 'm', Name: "M", In: strct(Fld{"a", base(kInt)}), Out: strct()}, {Kind: 'e', Name: "E", T: strct(Fld{"why", base(kString)})}}}, 0)
 	add("interface named context.Context, enum output", &Desc{Name: "context.Context", Mems: []Mem{{Kind: 'm', Name: "M", In: strct(), Out: strct(Fld{"e", enum("a", "b")})}}}, 0)
 	add("doc comments containing the generator's own markers", &Desc{Name: "org.example.markers", Doc: []string{"uses @IMPORTS@ in the interface doc", "and @PACKAGE@ @NAME@"}, Mems: []Mem{{Kind: 'm', Name: "M", In: strct(), Out: strct(), Doc: []string{"@IMPORTS@"}}, {Kind: 'e', Name: "E", T: strct(Fld{"why", base(kString)}), Doc: []string{"import ( \"fmt\" )"}}}}, 0)
+	// interface names whose labels run together into a Go keyword or into "main" (reported by a seeding sub-agent of round 10)
+	for _, n := range []string{"go.to", "fun.c", "ty.pe", "i.f", "ma.p", "pack.age", "imp.ort", "ma.in", "var.link", "in.t", "str.ing", "n.il", "Go.To"} {
+		add("interface name whose labels run together into a reserved word", &Desc{Name: n, Mems: []Mem{m0(), {Kind: 'e', Name: "E", T: strct(Fld{"why", base(kString)})}}}, 0)
+	}
 	add("recursive alias through containers", &Desc{Name: "org.example.recursive", Mems: []Mem{{Kind: 't', Name: "Tree", T: strct(Fld{"kids", wrap(kArray, alias("Tree"))}, Fld{"next", wrap(kMaybe, alias("Tree"))}, Fld{"byname", wrap(kMap, alias("Tree"))})}, {Kind: 'm', Name: "Walk", In: strct(Fld{"t", alias("Tree")}), Out: strct(Fld{"t", wrap(kMaybe, alias("Tree"))})}}}, 0)
 	add("object everywhere", &Desc{Name: "org.example.objects", Mems: []Mem{{Kind: 't', Name: "O", T: strct(Fld{"o", base(kObject)})}, {Kind: 'm', Name: "M", In: strct(Fld{"a", base(kObject)}, Fld{"b", wrap(kArray, base(kObject))}, Fld{"c", wrap(kMaybe, base(kObject))}), Out: strct(Fld{"r", wrap(kMap, base(kObject))}, Fld{"s", alias("O")})}, {Kind: 'e', Name: "E", T: strct(Fld{"detail", base(kObject)})}}}, 0)
 	add("alias of object and of optional object", &Desc{Name: "org.example.objalias", Mems: []Mem{{Kind: 't', Name: "Raw", T: base(kObject)}, {Kind: 't', Name: "MaybeRaw", T: wrap(kMaybe, base(kObject))}, {Kind: 't', Name: "MaybeAl", T: wrap(kMaybe, alias("Raw"))},
